@@ -589,6 +589,19 @@ func (c *EvalCtx) evalCall(e *CallE) TV {
 	case "isNaN":
 		x := c.eval(e.Args[0])
 		return TV{V: fpIsNaN(x.V.(*Term)), T: types.Typ[types.Bool]}
+	case "fpIntegral":
+		// the float is finite and has no fractional part
+		x := c.fp64(c.eval(e.Args[0]))
+		return TV{V: And(Not(FPOp("fp.isNaN", BoolSort, x)), Not(FPOp("fp.isInfinite", BoolSort, x)),
+			FPOp("fp.eq", BoolSort, FPOp("fp.roundToIntegral", FP64, RTZ, x), x)), T: types.Typ[types.Bool]}
+	case "fpToSBV64":
+		// mathematical truncation to a signed 64-bit integer (meaningful only for -2^63 <= x < 2^63)
+		x := c.fp64(c.eval(e.Args[0]))
+		return TV{V: FPOp("(_ fp.to_sbv 64)", BV64, RTZ, x), T: types.Typ[types.Int64]}
+	case "fpToUBV64":
+		// mathematical truncation to an unsigned 64-bit integer (meaningful only for -1 < x < 2^64)
+		x := c.fp64(c.eval(e.Args[0]))
+		return TV{V: FPOp("(_ fp.to_ubv 64)", BV64, RTZ, x), T: types.Typ[types.Uint64]}
 	case "isInf":
 		x := c.eval(e.Args[0])
 		return TV{V: fpIsInf(x.V.(*Term)), T: types.Typ[types.Bool]}
@@ -721,6 +734,19 @@ func (c *EvalCtx) evalCall(e *CallE) TV {
 	}
 	evalFail("unknown function %s", ExprString(e.Fun))
 	return TV{}
+}
+
+// fp64 returns the FloatingPoint term of a float32/float64 value (float32 widened exactly).
+func (c *EvalCtx) fp64(x TV) *Term {
+	t, ok := x.V.(*Term)
+	if !ok || x.T == nil || !isFloat(x.T) {
+		evalFail("float expected")
+	}
+	f := toFP(t)
+	if intWidth(x.T) == 32 {
+		f = FPOp("(_ to_fp 11 53)", FP64, RNE, f)
+	}
+	return f
 }
 
 func refOf(x TV) *Term {
